@@ -1,13 +1,16 @@
+import Desert.Lemmas.RoundTripFull
 import Desert.Lemmas.Misc
 /-!
-# C09 — string deduplication round-trips; repeats become short back-references (partial)
+# C09 — string deduplication round-trips; repeats become short back-references
 
 The string table of writer and reader is a list, id = index + 1, in first-occurrence order of the
-visit. The round trip in *every* placement over headerless records (flat streams, tuples,
+visit. The round trip in *every* placement over well-formed records, evolved or not (flat streams, tuples,
 sequences, options, structs, enums — any nesting, any interleaving with plain strings) is an
-instance of `rt_all`, whose induction carries the invariant "reader table = writer table" through
-both visits. Records with evolution headers (whose removed-field names are deduplicated strings
-too): checked by the `decl` family (DedupR, DedupR2, DedupMix, DedupNest), not yet by a theorem.
+instance of `rt_full`, whose induction carries the invariant "reader table = writer table" through
+both visits — through evolution headers too, whose removed-field names are deduplicated strings
+written before the chunks (`Lemmas/Header.lean`), and across the chunk regions of a record, which
+share one table (`Lemmas/FieldLoop.lean`). The `decl` family (DedupR, DedupR2, DedupMix,
+DedupNest) compares the same placements with the real code on every run.
 -/
 set_option linter.unusedVariables false
 set_option linter.unusedSimpArgs false
@@ -74,13 +77,13 @@ theorem unknown_id_errors (id : Nat) (hid : 0 < id) (hlt : id < 2 ^ 31) (s : Abs
   have : s.strs[id - 1]? = none := List.getElem?_eq_none (by omega)
   simp [this, runAbs]
 
-/-- deduplicated strings round-trip in any placement over headerless records, interleaved with
+/-- deduplicated strings round-trip in any placement over well-formed records (chunked ones included: the table is shared across chunks), interleaved with
 anything else, for any table the two sides share at that point -/
-theorem dedup_roundtrip (env : Env) (henv : EnvV0 env) (ty : Ty) (v : Val) (st : EncSt) (b : Bytes) (st' : EncSt)
+theorem dedup_roundtrip (env : Env) (henv : EnvWF env) (ty : Ty) (v : Val) (st : EncSt) (b : Bytes) (st' : EncSt)
     (fuel : Nat) (he : enc env ty v st = .ok (b, st')) (hu : v.utf8OK) (hst : StOK st) (hd : v.depth < fuel)
     (s : AbsSrc) (t : Bytes) (hw : s.WF) (hv : s.view = b ++ t) (hs : s.strs = st) :
     ∃ s', runAbs (dec env fuel ty) s = .ok (normalize env ty v, s') ∧ s'.strs = st' ∧ s'.view = t := by
-  have := ((rt_all env henv v).1 ty st b st' fuel he hu hst hd s t hw hv hs).1
+  have := ((rt_wf env henv v).1 ty st b st' fuel he hu hst hd s t hw hv hs).1
   exact ⟨_, this, rfl, view_after_append hv _⟩
 
 /-- a single deduplicated string: reader and writer tables stay equal -/
